@@ -1032,6 +1032,44 @@ fn grid() {
         for _ in 0..777 { s2.push('x'); }
         println!("R string_reserved_no_move es=1 n=777 moved={} bound=0", (s2.as_ptr() as usize != p0) as usize);
     }
+    // C13 / C09: a fallible reservation that the arena refuses (allocation limit reached) leaves the vector
+    // exactly as it was: its buffer is still its own, so later allocations do not land on it and pushes
+    // within the capacity it still reports disturb nobody
+    {
+        for (cap0, len0) in [(8usize, 0usize), (8, 3), (64, 0), (64, 64), (1, 0)] {
+            for exact in [false, true] {
+                let bump = Bump::new();
+                let mut v: BVec<u64> = BVec::with_capacity_in(cap0, &bump);
+                for i in 0..len0 { v.push(1000 + i as u64); }
+                let cap_before = v.capacity();
+                bump.set_allocation_limit(Some(bump.allocated_bytes()));
+                let big = 1usize << 20;
+                let r = if exact { v.try_reserve_exact(big) } else { v.try_reserve(big) };
+                bump.set_allocation_limit(None);
+                let refused = r.is_err();
+                let neighbour = bump.alloc_slice_fill_copy(16, 0xABABABABABABABABu64);
+                let room = v.capacity() - v.len();
+                for i in 0..room { v.push(2000 + i as u64); }
+                let contents_ok = v.iter().take(len0).enumerate().all(|(i, x)| *x == 1000 + i as u64)
+                    && v.iter().skip(len0).enumerate().all(|(i, x)| *x == 2000 + i as u64);
+                let neighbour_ok = neighbour.iter().all(|x| *x == 0xABABABABABABABAB);
+                if !refused || v.capacity() < cap_before || !contents_ok || !neighbour_ok {
+                    println!("X neighbour or buffer wrong after a refused try_reserve cap={} len={} exact={} refused={} cap_after={} contents_ok={} neighbour_ok={}", cap0, len0, exact as u8, refused as u8, v.capacity(), contents_ok as u8, neighbour_ok as u8);
+                }
+                let mut st = bumpalo::collections::String::with_capacity_in(cap0, &bump);
+                for _ in 0..len0.min(cap0) { st.push('s'); }
+                // (the arena String has no try_reserve: the infallible reserve must panic with the buffer kept)
+                bump.set_allocation_limit(Some(bump.allocated_bytes()));
+                let r = catch_unwind(AssertUnwindSafe(|| if exact { st.reserve_exact(big) } else { st.reserve(big) }));
+                bump.set_allocation_limit(None);
+                let nb2 = bump.alloc_slice_fill_copy(24, 0xCDu8);
+                while st.len() < st.capacity() { st.push('t'); }
+                if r.is_ok() || nb2.iter().any(|x| *x != 0xCD) || !st.chars().all(|c| c == 's' || c == 't') {
+                    println!("X neighbour or buffer wrong after a refused String::reserve cap={} len={} exact={}", cap0, len0, exact as u8);
+                }
+            }
+        }
+    }
     // C13: the constructors and conversions that collect from an iterator (collect_in.rs, from_iter_in,
     // into_* conversions) against std's collect, for honest and lying size hints, with Option/Result
     // short-circuits
